@@ -176,3 +176,34 @@ def oracle_rejections(R, tier, seed):
         if not any(("`%s`" % key) in m for m in msgs): O["failures"].append({"key": "C20:no-warning:" + what, "case": {"input": what, "key": key}, "observed": [exc, msgs[:3]]})
         else: O["ok"] += 1
     R.mark("c20rej")
+
+
+def oracle_multisection_user_meshes(R, tier, seed):
+    """multi-section surface with USER-PROVIDED section meshes (each in its own local frame): the documented flow
+    build_sections -> unify_mesh (twice, as when two problems are built from the same data) leaves the user's arrays bit for bit
+    unchanged and returns the same unified mesh both times"""
+    import hashlib
+    from openaerostruct.geometry.geometry_group import build_sections
+    from openaerostruct.geometry.geometry_unification import unify_mesh
+    from openaerostruct.geometry.geometry_mesh_gen import generate_mesh as gen_sections
+    O = R.oracle("multisection.user-meshes-untouched-and-repeatable")
+    rng = gen.stable_rng(seed, "c20ms")
+    for nsec in ((2, 3) if tier == "quick" else (2, 3, 4, 5)):
+        nx = int(rng.integers(2, 4)); ny = rng.integers(2, 5, nsec)
+        _, secs = gen_sections({"num_sections": nsec, "symmetry": True, "taper": rng.uniform(0.5, 1.0, nsec), "sweep": np.zeros(nsec), "span": rng.uniform(1, 3, nsec),
+                                "root_chord": 2.0, "nx": nx, "ny": ny})
+        user = [np.array(s) + (rng.normal(size=3) * 0.7 if i else 0.0) for i, s in enumerate(secs)]
+        surface = {"name": "ms", "is_multi_section": True, "num_sections": nsec, "symmetry": True, "S_ref_type": "wetted", "meshes": user,
+                   "sec_name": ["s%d" % i for i in range(nsec)]}
+        dig = lambda: [hashlib.sha256(np.ascontiguousarray(u).tobytes()).hexdigest() for u in user]
+        d0 = dig()
+        u1 = unify_mesh(build_sections(surface)); d1 = dig()
+        u2 = unify_mesh(build_sections(surface)); d2 = dig()
+        O["cases"] += 1
+        bad = {}
+        if d1 != d0 or d2 != d0: bad["user-meshes-modified"] = [i for i, (a, b) in enumerate(zip(d0, d2)) if a != b]
+        if u1.shape != u2.shape or np.abs(u1 - u2).max() != 0.0: bad["not-repeatable"] = float(np.abs(u1 - u2).max()) if u1.shape == u2.shape else "shape"
+        if not np.all(np.isfinite(u1)): bad["non-finite"] = 1
+        if bad: O["failures"].append({"key": "C20:unify_mesh:%s" % sorted(bad)[0], "case": {"num_sections": nsec, "nx": nx, "ny": ny.tolist(), "seed": seed}, "errors": bad})
+        else: O["ok"] += 1
+        R.mark("c20ms", nsec)
